@@ -48,6 +48,7 @@ SIGMA_FULL = [
     '      |\n',
     '#language: fr\n',
     '  #language: xx\n',
+    '# Language: Klingon\n',
     'free text  \n',
     ' \x0b \n',
     'Scénario: é\r\n',
